@@ -19,6 +19,7 @@ def main():
     mod.run_shard(spec, rep)
     for k, v in guards.budget_stats().items():
         rep.counters[("max:budget:" if k.startswith("max_") else "budget:") + k] = v
+    rep.lines = guards.lines_hit()
     with open(out_path, "w") as fh:
         json.dump(rep.to_json(), fh)
 
